@@ -352,6 +352,15 @@ std::string run_isolated(const std::vector<Vec> &pos, const Box<> &box,
       const std::string m = e.file + ":" + std::to_string(e.line) + ": " + e.msg;
       for (char ch : m)
         d.push_back((double)(unsigned char)ch);
+    } catch (const std::exception &e) {
+      d.clear();
+      d.push_back(-1.);
+      const std::string m = std::string("exception: ") + e.what();
+      for (char ch : m)
+        d.push_back((double)(unsigned char)ch);
+    } catch (...) {
+      d.clear();
+      d.push_back(-1.);
     }
     const char *b = (const char *)d.data();
     size_t left = d.size() * sizeof(double);
